@@ -481,4 +481,243 @@ theorem prun {N : Nat} (c c' : Cfg) (ops : List Op) (h : PInv N c)
       exact ih c1 (pstep c c1 op h h1) hr
     · cases hr
 
+
+/-! ### the canonical crash-free run ends the execution -/
+
+theorem ponReply_enabled {N : Nat} {c c1 : Cfg} (h : PInv N c) {corr : Nat} (hp : corr ∈ c.pending) (v : Vol)
+    (hev : c1.evq = c.evq) : ∃ x, onReply Quirks.none c1 corr v = some x := by
+  obtain ⟨m, hm, hid, hu, hf⟩ := punacked h (h.vol.p_sub _ hp).1
+  obtain ⟨rc, rest, stack, start, hk⟩ := task_of_flat (h.dur.kinds _ (mem_evK hm)) (h.vol.p_kind m hm (hid ▸ hp))
+  replace hk : m.kind = .visit (.task rc rest) stack start none := hk
+  have hf1 : findEv c1 corr true = some m := by
+    unfold findEv at hf ⊢; rw [hev]; exact hf
+  simp only [onReply, hf1, hk]
+  exact ⟨_, rfl⟩
+
+theorem pcanon_enabled {N : Nat} (c : Cfg) (h : PInv N c) (op : Op) (hop : nextOp c = some op) :
+    (∃ c', step Quirks.none c op none = some c') ∧
+      (match op with
+       | .ev _ => True
+       | .tm id => id ∈ c.timers
+       | .rp _ => True
+       | .tick => ∃ o ∈ c.orphans, o ∈ c.pending
+       | .crash => False) := by
+  have hnd : c.diverged = false := h.dur.nodiv
+  unfold nextOp at hop
+  split at hop
+  · rename_i t ts ht
+    cases hop
+    have hc : t ∈ c.timers := by rw [ht]; simp
+    refine ⟨?_, hc⟩
+    obtain ⟨m, hm, hid, hu, hf⟩ := punacked h (h.vol.t_sub t hc)
+    have hfk : flatKind m.kind = true := h.dur.kinds _ (mem_evK hm)
+    obtain ⟨tt, stack, start, hk, _⟩ := flatKind_inv hfk
+    have hfk2 : flatKind (.visit tt stack start none) = true := hk ▸ hfk
+    have htk := h.vol.t_kind m hm (hid ▸ hc)
+    have hc' : (!c.timers.contains t) = false := by simp [hc]
+    unfold step
+    rw [if_neg (by simp [hnd])]
+    simp only [hc', Bool.false_eq_true, if_false, hf, hk]
+    rcases flat_cases hfk2 with rfl | ⟨rc, rest, rfl⟩ | ⟨rest, rfl⟩ | ⟨rest, rfl⟩ | ⟨mc, brs, rest, rfl, rfl⟩
+    · rw [hk] at htk; simp [timerKind] at htk
+    · exact ⟨_, rfl⟩
+    · rw [hk] at htk; simp [timerKind] at htk
+    · exact ⟨_, rfl⟩
+    · simp only
+      split <;> exact ⟨_, rfl⟩
+  · split at hop
+    · rename_i m hm
+      cases hop
+      refine ⟨?_, trivial⟩
+      have hmm := List.mem_of_find?_eq_some hm
+      have hmu : m.unacked = false := by simpa using List.find?_some hm
+      obtain ⟨l1, l2, he, h1, h2⟩ := split_of_mem hmm (by rw [← evK_ids]; exact h.dur.ids)
+      have hf : findEv c m.id false = some m := by
+        have := findEv_split he h1; rwa [hmu] at this
+      have hfk : flatKind m.kind = true := h.dur.kinds _ (mem_evK hmm)
+      obtain ⟨tt, stack, start, hk, _⟩ := flatKind_inv hfk
+      have hfk2 : flatKind (.visit tt stack start none) = true := hk ▸ hfk
+      have hdead := not_inDeadJoin h.join (markEv c m.id).vol rfl (EvKind.visit tt stack start none)
+      unfold step
+      rw [if_neg (by simp [hnd])]
+      simp only [hf, hk, hdead, Bool.false_eq_true, if_false]
+      rcases flat_cases hfk2 with rfl | ⟨rc, rest, rfl⟩ | ⟨rest, rfl⟩ | ⟨rest, rfl⟩ | ⟨mc, brs, rest, rfl, rfl⟩
+      · exact ⟨_, rfl⟩
+      · simp only; split <;> exact ⟨_, rfl⟩
+      · exact ⟨_, rfl⟩
+      · exact ⟨_, rfl⟩
+      · exact ⟨_, rfl⟩
+    · split at hop
+      · rename_i hne r hr
+        cases hop
+        refine ⟨?_, trivial⟩
+        have hrm := List.mem_of_find?_eq_some hr
+        have hru : r.unacked = false := by simpa using List.find?_some hr
+        have hany : (c.rpq.any (fun x => x.corr == r.corr && !x.unacked)) = true :=
+          List.any_eq_true.mpr ⟨r, hrm, by simp [hru]⟩
+        unfold step
+        rw [if_neg (by simp [hnd])]
+        simp only [hany, Bool.not_true, Bool.false_eq_true, if_false]
+        by_cases hp : r.corr ∈ c.pending
+        · have hp' : (({ c with rpq := markRpL c.rpq r.corr } : Cfg).vol.pending.contains r.corr) = true := by
+            simp [Cfg.vol, hp]
+          rw [if_pos hp']
+          obtain ⟨x, hx⟩ := ponReply_enabled (c1 := { c with rpq := markRpL c.rpq r.corr }) h hp
+            ({ c with rpq := markRpL c.rpq r.corr } : Cfg).vol rfl
+          rw [hx]
+          exact ⟨_, rfl⟩
+        · have hp' : ¬ (({ c with rpq := markRpL c.rpq r.corr } : Cfg).vol.pending.contains r.corr) = true := by
+            simp [Cfg.vol, hp]
+          rw [if_neg hp']
+          exact ⟨_, rfl⟩
+      · split at hop
+        · rename_i hany
+          cases hop
+          obtain ⟨o, ho, hpo⟩ := List.any_eq_true.mp hany
+          have hpo' : o ∈ c.pending := by simpa using hpo
+          refine ⟨?_, o, ho, hpo'⟩
+          unfold step
+          rw [if_neg (by simp [hnd])]
+          simp only
+          cases hf : c.orphans.find? (fun o => c.pending.contains o) with
+          | none => exact absurd hpo (List.find?_eq_none.mp hf o ho)
+          | some corr =>
+            have hp : corr ∈ c.pending := by simpa using List.find?_some hf
+            obtain ⟨x, hx⟩ := ponReply_enabled (c1 := c) h hp { c.vol with orphans := c.orphans.erase corr } rfl
+            simp only [hx]
+            exact ⟨_, rfl⟩
+        · cases hop
+
+/-- nothing enabled: nothing is left in the event queue -/
+theorem pquiet {N : Nat} (c : Cfg) (h : PInv N c) (hq : nextOp c = none) : c.evq = [] := by
+  unfold nextOp at hq
+  split at hq
+  · cases hq
+  · rename_i ht
+    split at hq
+    · cases hq
+    · rename_i hev
+      split at hq
+      · cases hq
+      · rename_i hrp
+        split at hq
+        · cases hq
+        · rename_i hany
+          -- every event is unacknowledged, and held by the join
+          have hun : ∀ e ∈ c.evq, e.unacked = true := by
+            intro e he
+            have := List.find?_eq_none.mp hev e he
+            simpa using this
+          have hheld : ∀ e ∈ c.evq, e.id ∈ heldE c.joins := by
+            intro e he
+            have hu := h.vol.u_ev e.id (mem_uEv.mpr ⟨e, he, hun e he, rfl⟩)
+            rw [ht] at hu
+            simp only [List.not_mem_nil, false_or] at hu
+            rcases hu with hu | hu
+            · -- it would wait for a reply that is unacknowledged and either retained or held
+              exfalso
+              have hs := (h.vol.p_sub _ hu).2
+              obtain ⟨_, hr⟩ := h.dur.reply _ (mem_evK he) hs
+              obtain ⟨r, hrm, hrc⟩ := List.mem_map.mp hr
+              have hru : r.unacked = true := by
+                have := List.find?_eq_none.mp hrp r hrm
+                simpa using this
+              rcases h.vol.u_rp r.corr (mem_uRp.mpr ⟨r, hrm, hru, rfl⟩) with ho | ho
+              · apply hany
+                exact List.any_eq_true.mpr ⟨r.corr, ho, by rw [hrc]; simpa using hu⟩
+              · simp only [heldR, List.mem_flatMap] at ho
+                obtain ⟨j, hj1, hj2⟩ := ho
+                obtain ⟨q, hq1, hq2⟩ := h.join.rpheld j hj1 _ hj2
+                have := (h.join.ht _ (mem_heldE hj1 hq1)).2
+                rw [hq2, hrc] at this
+                exact this hu
+            · exact hu
+          apply List.eq_nil_iff_forall_not_mem.mpr
+          intro e he
+          have hxin := mem_evK he
+          have hh := hheld e he
+          simp only [heldE, List.mem_flatMap] at hh
+          obtain ⟨j, hj, _⟩ := hh
+          -- the event belongs to a branch
+          have hstk : evStack e.kind ≠ [] := by
+            intro hs
+            have := (h.shape.top _ hxin hs).2
+            rw [this] at hj; cases hj
+          obtain ⟨t, f, hk, _, hwf⟩ := flatKind_branch (h.dur.kinds _ hxin) hstk
+          have hk' : e.kind = .visit t [f] false none := hk
+          have hef : evStack e.kind = [f] := by rw [hk']; rfl
+          have hmine := (h.join.mine j hj _ hxin f hef).2
+          have uniq : ∀ p ∈ evK c, ∀ q ∈ evK c, p.1 = q.1 → p = q :=
+            fun p hp q hq hpq => eq_of_nodup_map (·.1) h.dur.ids hp hq hpq
+          -- every slot is filled
+          have hfull : ∀ i, i < f.width → i ∈ j.filled := by
+            intro i hi
+            obtain ⟨p', hp', f', hf', hi'⟩ := h.shape.cover _ hxin f hef i hi
+            obtain ⟨e', he', rfl⟩ := List.mem_map.mp hp'
+            have hh' := hheld e' he'
+            simp only [heldE, List.mem_flatMap, List.mem_map] at hh'
+            obtain ⟨j', hj', q, hq, hq2⟩ := hh'
+            have hjj : j' = j := by
+              have h1 := h.join.one j hj
+              rw [h1] at hj'; simpa using hj'
+            subst hjj
+            obtain ⟨hq1, p, hp, hp1, hp2, _⟩ := h.join.held j' hj q hq
+            have : p = (e'.id, e'.kind) := uniq p hp _ hp' (by rw [hp1, hq2])
+            rw [this] at hp2
+            have hki : kIdx e'.kind = i := by
+              have hf'' : evStack e'.kind = [f'] := hf'
+              simp [kIdx, hf'', hi']
+            rw [← hki, hp2]; exact hq1
+          have := length_ge_of_full f.width j.filled hfull
+          omega
+
+theorem pcanon {N : Nat} (c : Cfg) (h : PInv N c) (op : Op) (hop : nextOp c = some op) :
+    ∃ c', step Quirks.none c op none = some c' ∧ PInv N c' ∧ mu2 c' < mu2 c := by
+  obtain ⟨⟨c', hs⟩, hdec⟩ := pcanon_enabled c h op hop
+  refine ⟨c', hs, ?_⟩
+  cases op with
+  | ev id => exact pstep_ev c c' id h hs
+  | tm id => have g := pstep_tm c c' id h hs; exact ⟨g.1, g.2 hdec⟩
+  | rp corr => exact pstep_rp c c' corr h hs
+  | tick => have g := pstep_tick c c' h hs; exact ⟨g.1, g.2 hdec⟩
+  | crash => exact hdec.elim
+
+theorem pdrain {N : Nat} (fuel : Nat) (c : Cfg) (h : PInv N c) (hf : mu2 c ≤ fuel) :
+    PInv N (drain Quirks.none fuel c) ∧ nextOp (drain Quirks.none fuel c) = none := by
+  induction fuel generalizing c with
+  | zero =>
+    simp only [drain]
+    refine ⟨h, ?_⟩
+    cases hop : nextOp c with
+    | none => rfl
+    | some op =>
+      obtain ⟨c', _, _, hlt⟩ := pcanon c h op hop
+      omega
+  | succ fuel ih =>
+    simp only [drain, h.dur.nodiv, Bool.false_eq_true, if_false]
+    cases hop : nextOp c with
+    | none => exact ⟨h, hop⟩
+    | some op =>
+      obtain ⟨c', hs, hi, hlt⟩ := pcanon c h op hop
+      simp only [hs]
+      exact ih c' hi (by omega)
+
+theorem pended {N : Nat} {c : Cfg} (h : PInv N c) (hq : nextOp c = none) : Ended N c := by
+  have hev := pquiet c h hq
+  have hevk : evK c = [] := by simp [evK, hev]
+  obtain ⟨psi0, psi1, phi, fresh⟩ := h.cons
+  have hrp : c.rpq = [] := by
+    apply List.eq_nil_iff_forall_not_mem.mpr
+    intro r hr
+    obtain ⟨p, hp, _⟩ := fresh r.corr (List.mem_map.mpr ⟨r, hr, rfl⟩)
+    rw [hevk] at hp; cases hp
+  refine ⟨hev, hrp, psi0 hevk, h.dur.sentnd, ?_, ?_, ?_, ?_, h.join.jne hevk⟩
+  · simp only [load2, inflight2, hevk, List.map_nil, List.sum_nil, List.filter_nil, List.length_nil] at phi; omega
+  · apply List.eq_nil_iff_forall_not_mem.mpr
+    intro t ht; have := h.vol.t_sub t ht; rw [hev] at this; cases this
+  · apply List.eq_nil_iff_forall_not_mem.mpr
+    intro t ht; have := (h.vol.p_sub t ht).1; rw [hev] at this; cases this
+  · apply List.eq_nil_iff_forall_not_mem.mpr
+    intro t ht; have := h.vol.o_sub t ht; rw [hrp] at this; cases this
+
 end Asl.Crash
